@@ -81,11 +81,11 @@ def crash_stack(logtxt, head):
     """the text from the panic / fatal-error line to the end of the first goroutine's stack (a stack
     overflow prints 100 top frames, an elision marker and the bottom frames: far more than a page)"""
     t = logtxt[logtxt.find(head):][:600000]
-    m = re.search(r"\n\ngoroutine \d+ ", t)
-    if m:
-        m2 = re.search(r"\n\ngoroutine \d+ ", t[m.end():])
-        if m2:
-            return t[:m.end() + m2.start()]
+    # up to the end of the first goroutine that is not the idle scheduler goroutine 0
+    cuts = [m.start() for m in re.finditer(r"\n\ngoroutine \d+ ", t)]
+    blocks = 2 if re.search(r"\n\ngoroutine 0 [^\n]*\[idle\]", t[:cuts[1]] if len(cuts) > 1 else t) else 1
+    if len(cuts) > blocks:
+        return t[:cuts[blocks]]
     return t[:200000]
 
 
@@ -165,6 +165,21 @@ def run_child(spec):
     t0 = time.time()
     with open(log, "w") as f:
         p = subprocess.run(cmd, cwd=os.path.dirname(log), env=env, stdout=f, stderr=subprocess.STDOUT)
+    # a child that died inside the Go runtime itself (no summary, a crash whose stack holds no frame of
+    # the code under test - e.g. a SIGSEGV in runtime.GOMAXPROCS) says nothing about the property: run
+    # that shard once more; the first log is kept. A crash with an ebu frame is never retried.
+    if p.returncode not in (0, 124, 137) and not os.path.exists(env.get("VERIF_OUT", "")):
+        try:
+            logtxt = open(log, errors="replace").read()
+        except OSError:
+            logtxt = ""
+        m = re.search(r"^(panic: .*|fatal error: .*|SIGSEGV: .*|SIGBUS: .*)$", logtxt, re.M)
+        if m and not has_ebu_frame(crash_stack(logtxt, m.group(1)), env.get("VERIF_REPO", "/repo")) and "verif/harness" not in crash_stack(logtxt, m.group(1)).split("\n\ngoroutine ")[0]:
+            shutil.copy(log, log + ".first")
+            with open(log, "w") as f:
+                f.write("(second attempt: the first one died inside the Go runtime, see %s.first)\n" % os.path.basename(log))
+                f.flush()
+                p = subprocess.run(cmd, cwd=os.path.dirname(log), env=env, stdout=f, stderr=subprocess.STDOUT)
     return p.returncode, time.time() - t0
 
 
